@@ -30,6 +30,11 @@ func Workers() int {
 // reported as a violation with signature "panic:<where>" unless the case function recovers itself. Stops at the
 // recorder's deadline and marks the run non-exhaustive (exit code unaffected).
 func Run(r *ev.Rec, n int64, f func(i int64, l *ev.Local)) {
+	part := nextPart()
+	if only != nil {
+		runOnly(r, part, n, f)
+		return
+	}
 	block := int64(16)
 	if n > 1<<20 {
 		block = 1024
@@ -38,24 +43,27 @@ func Run(r *ev.Rec, n int64, f func(i int64, l *ev.Local)) {
 		block = 1
 	}
 	if r.Shards > 1 || os.Getenv("VERIF_SHARD") != "" {
-		// shard process: single goroutine, blocks dealt round-robin over the shards
+		// shard process: single goroutine. Cases are dealt to the shards by a hash of their index: the cost of a case is a
+		// function of its digits, so any regular dealing (round-robin of cases or blocks) resonates with the mixed-radix
+		// layout of the product and leaves some shards with several times the work of others.
 		l := r.Local()
 		defer l.Merge()
 		var done int64
-		for lo := int64(r.Shard) * block; lo < n; lo += block * int64(r.Shards) {
-			if r.Expired() {
+		shards := uint64(r.Shards)
+		if shards == 0 {
+			shards = 1
+		}
+		for i := int64(0); i < n; i++ {
+			if mix(uint64(i))%shards != uint64(r.Shard) {
+				continue
+			}
+			if done%16 == 0 && r.Expired() {
 				r.Exhaustive = false
 				r.Extra["deadline_hit"] = true
 				break
 			}
-			hi := lo + block
-			if hi > n {
-				hi = n
-			}
-			for i := lo; i < hi; i++ {
-				runOne(r, i, l, f)
-			}
-			done += hi - lo
+			runOne(r, part, i, l, f)
+			done++
 		}
 		if v, ok := r.Extra["cases_completed_sum"].(float64); ok {
 			r.Extra["cases_completed_sum"] = v + float64(done)
@@ -88,7 +96,7 @@ func Run(r *ev.Rec, n int64, f func(i int64, l *ev.Local)) {
 					hi = n
 				}
 				for i := lo; i < hi; i++ {
-					runOne(r, i, l, f)
+					runOne(r, part, i, l, f)
 				}
 				atomic.AddInt64(&done, hi-lo)
 			}
@@ -106,6 +114,11 @@ func Run(r *ev.Rec, n int64, f func(i int64, l *ev.Local)) {
 // over the shards (explore.Explorer.Shard/NShards: the first-level subtrees of an exploration are dealt round-robin).
 // Used where the cases are few and of very unequal size.
 func RunEveryShard(r *ev.Rec, n int64, f func(i int64, l *ev.Local)) {
+	part := nextPart()
+	if only != nil {
+		runOnly(r, part, n, f)
+		return
+	}
 	l := r.Local()
 	defer l.Merge()
 	var done int64
@@ -115,7 +128,7 @@ func RunEveryShard(r *ev.Rec, n int64, f func(i int64, l *ev.Local)) {
 			r.Extra["deadline_hit"] = true
 			break
 		}
-		runOne(r, i, l, f)
+		runOne(r, part, i, l, f)
 		done++
 	}
 	if r.Shard == 0 {
@@ -127,7 +140,38 @@ func RunEveryShard(r *ev.Rec, n int64, f func(i int64, l *ev.Local)) {
 	}
 }
 
-func runOne(r *ev.Rec, i int64, l *ev.Local, f func(i int64, l *ev.Local)) {
+// Parts are numbered in program order: a check calls Run / RunEveryShard sequentially, so the numbering is the same in
+// every process that runs the same check at the same tier.
+var (
+	partSeq int64
+	only    *ev.CaseRef
+)
+
+func nextPart() int { return int(atomic.AddInt64(&partSeq, 1)) - 1 }
+
+// Only restricts every later enumeration of this process to one case (used by `vc replay`); nil lifts the restriction.
+func Only(c *ev.CaseRef) { only = c; atomic.StoreInt64(&partSeq, 0) }
+
+func runOnly(r *ev.Rec, part int, n int64, f func(i int64, l *ev.Local)) {
+	if part != only.Part || only.Index >= n {
+		return
+	}
+	l := r.Local()
+	defer l.Merge()
+	runOne(r, part, only.Index, l, f)
+}
+
+// mix is the splitmix64 finalizer.
+func mix(x uint64) uint64 {
+	x += 0x9e3779b97f4a7c15
+	x = (x ^ (x >> 30)) * 0xbf58476d1ce4e5b9
+	x = (x ^ (x >> 27)) * 0x94d049bb133111eb
+	return x ^ (x >> 31)
+}
+
+func runOne(r *ev.Rec, part int, i int64, l *ev.Local, f func(i int64, l *ev.Local)) {
+	l.Case = &ev.CaseRef{Part: part, Index: i}
+	defer func() { l.Case = nil }()
 	defer func() {
 		if p := recover(); p != nil {
 			l.Violation("harness-panic", fmt.Sprintf("case %d panicked: %v", i, p), map[string]any{"index": i, "stack": string(debug.Stack())})
